@@ -138,3 +138,64 @@ package services
 //@   ensures [datagram-reported] isUDP(conn) && result == nil ==> nsends == old(nsends) + 1
 //@   ensures [at-most-one] nsends <= old(nsends) + 1
 //@   modifies *
+//
+// ---- proxy services relay to the configured backend (property C15) ----
+// nbackend counts the backend connections a handler asks its director for, nreqout / nrespout the HTTP
+// messages it writes out (ghost counters kept by the verifier at the calls).
+//@ ghost var nbackend int
+//@ ghost var nreqout int
+//@ ghost var nrespout int
+//
+// The copy proxy: for a TCP or UDP client (as handed over by the server, see served) the backend is asked
+// for exactly once, for this client's connection; the handler opens no connection itself; bytes are
+// copied between the client's and the backend's connection only, once in each direction.
+//@ func (*copyService).Handle
+//@   callcount Director.Dial: nbackend
+//@   requires served(conn)
+//@   physical 0 <= nbackend && nbackend < 1<<48
+//@   callpre Director.Dial: a1 == caller.conn
+//@   callpre net.Dial: false
+//@   callpre Copy: (dst == conn && src != conn) || (src == conn && dst != conn)
+//@   ensures [dials-backend] (isUDP(conn) || network(raddr(conn)) == "tcp") ==> nbackend == old(nbackend) + 1
+//@   ensures [one-backend] nbackend <= old(nbackend) + 1
+//@   modifies *
+//
+// The DNS proxy: one backend connection for this client; what was read from the client is what is written
+// to the backend (cread: all bytes read from a connection, cout: all bytes written to it), what was read
+// from the backend is what is written back to the client, and the query is reported by one event.
+//@ func (*dnsProxy).Handle
+//@   callcount Director.Dial: nbackend
+//@   requires served(conn)
+//@   physical 0 <= nbackend && nbackend < 1<<48 && 0 <= nsends && nsends < 1<<48 && 0 <= conn.consumed && conn.consumed < 1<<49 && 0 <= conn.written && conn.written < 1<<48
+//@   callpre Director.Dial: a1 == caller.conn
+//@   callpre net.Dial: false
+//@   ensures [dials-backend] (isUDP(conn) || network(raddr(conn)) == "tcp") && result == nil ==> nbackend == old(nbackend) + 1
+//@   ensures [one-backend] nbackend <= old(nbackend) + 1
+//@   ensures [reported] (isUDP(conn) || network(raddr(conn)) == "tcp") && result == nil ==> nsends == old(nsends) + 1
+//@   ensures [query-forwarded] (isUDP(conn) || network(raddr(conn)) == "tcp") && result == nil ==> conn.cread == concat(old(conn.cread), conn2.cout)
+//@   ensures [reply-returned] (isUDP(conn) || network(raddr(conn)) == "tcp") && result == nil ==> conn.cout == concat(old(conn.cout), conn2.cread)
+//@   modifies *
+//
+// The HTTP proxy: one backend connection for this client; one buffered reader on each side for the whole
+// connection (so that pipelined requests and replies are not lost); every request read is written out
+// once, every reply read from the backend is written to the client once, and every forwarded request is
+// reported by one event.
+//@ func (*httpProxy).Handle
+//@   callcount Director.Dial: nbackend
+//@   callcount http.(*Request).Write: nreqout
+//@   callcount http.(*Response).Write: nrespout
+//@   requires served(conn) && conn.bufreaders == 0
+//@   physical 0 <= nbackend && nbackend < 1<<48 && 0 <= nsends && nsends < 1<<48 && 0 <= nreqout && nreqout < 1<<48 && 0 <= nrespout && nrespout < 1<<48
+//@   callpre Director.Dial: a1 == caller.conn
+//@   callpre net.Dial: false
+//@   callpre http.(*Response).Write: w == caller.conn
+//@   ensures [one-backend] nbackend == old(nbackend) + 1
+//@   ensures [one-reader-client] conn.bufreaders <= 1
+//@   ensures [one-reader-backend] conn.bufreaders == 1 ==> conn2.bufreaders == 1
+//@   ensures [every-request-forwarded] nreqout - old(nreqout) == nrequests - old(nrequests)
+//@   ensures [every-reply-returned] nrespout - old(nrespout) == nresponses - old(nresponses)
+//@   ensures [every-request-reported] nsends - old(nsends) <= nrequests - old(nrequests) && nrequests - old(nrequests) - 1 <= nsends - old(nsends)
+//@   modifies *
+//@   loop 1: invariant conn.bufreaders == 1 && conn2.bufreaders == 1 && nbackend == old(nbackend) + 1
+//@   loop 1: invariant nrequests == old(nrequests) + loopiter && nresponses == old(nresponses) + loopiter
+//@   loop 1: invariant nreqout == old(nreqout) + loopiter && nrespout == old(nrespout) + loopiter && nsends == old(nsends) + loopiter
